@@ -279,3 +279,30 @@ func VH_E_bad_ReadonlyGuardStore() {
 	rr.Balance(Message{}, 0, 1) // stores to rr.counter: must be reported
 	vhGuardCheck(false)
 }
+
+// lockset analysis (vhWatch): repository code writing a watched object's field from two goroutines without a common
+// lock is reported; the same accesses under the object's mutex are not
+func VH_E_bad_LocksetUnlockedWriters() {
+	wb := newWriteBatch(time.Unix(0, 0), time.Second)
+	vhWatch(wb)
+	vhGuardCheck(true)
+	for g := 0; g < 2; g++ {
+		go func() { wb.add(Message{Value: []byte("v")}, 10, 1000) }() // writeBatch.add relies on its caller's lock
+	}
+	vhRunAll()
+	vhRunAll()
+	vhGuardCheck(false)
+}
+
+func VH_E_ok_LocksetLockedWriters() {
+	rr := &RoundRobin{}
+	vhWatch(rr)
+	vhGuardCheck(true)
+	for g := 0; g < 2; g++ {
+		go func() { rr.Balance(Message{}, 0, 1, 2) }()
+	}
+	vhRunAll()
+	vhRunAll()
+	vhGuardCheck(false)
+	vhReach("e-lockset")
+}
